@@ -134,6 +134,19 @@ func init() {
 					c["ev"] = []gen.M{gen.Op("solve")}
 					if r.Intn(2) == 0 { // the same constraint values handed to New a second time
 						c["ev"] = []gen.M{gen.Op("solve"), gen.Op("solve")}
+						if r.Intn(2) == 0 && n >= 2 { // with a hard PB constraint whose coefficients are not sorted
+							k := 2 + r.Intn(min(n, 4)-1)
+							lits := gen.DistinctLits(r, n, k)
+							w := make([]int, k)
+							sum := 0
+							for j := range w {
+								w[j] = 1 + j + r.Intn(2) // increasing
+								sum += w[j]
+							}
+							hard := gen.Ctor("gteq", lits, w, 1+r.Intn(sum))
+							hard["weight"] = 0
+							c["cons"] = append(cons, hard)
+						}
 					}
 				}
 				res = append(res, c)
